@@ -5,6 +5,7 @@ from __future__ import annotations
 
 import json
 import logging
+import os
 import random
 
 from . import common, flow_impl, flowgen, floworacle
@@ -15,30 +16,79 @@ def _sig(meta, breaches):
     return s
 
 
-def run_streams(env, res, directed, n_random, weights=None, observables=None, random_monitor=None):
-    """directed: list of (name, generator(rng, n), n). Random programs from flowgen afterwards."""
-    logging.disable(logging.CRITICAL)
-    impl = flow_impl.Impl()
-    drv = env.driver
-    try:
-        for name, gen, n in directed:
-            for prog, expect, meta in gen(random.Random(env.seed), n):
-                if env.out_of_time():
-                    break
-                flow_impl.prepare(prog)
-                if expect.get('entries'):
-                    floworacle.fix_lines(prog, expect)
-                one(env, res, drv, impl, prog, meta, expect, observables)
-                res.count('family:' + meta.get('family', name))
-        rng = random.Random(env.seed * 7919 + 13)
-        for _ in range(n_random):
+_JOB = None   # (env fields, directed, n_random, weights, observables, random_monitor) for forked workers
+
+
+def _stream(env, res, drv, impl, directed, n_random, weights, observables, random_monitor, shard=0, shards=1):
+    """One shard of the streams: directed cases with index % shards == shard, 1/shards of the random ones."""
+    for name, gen, n in directed:
+        for idx, (prog, expect, meta) in enumerate(gen(random.Random(env.seed), n)):
+            if idx % shards != shard:
+                continue
             if env.out_of_time():
                 break
-            if env.escalated and any(f['kind'] == 'property' for f in res.findings):
-                break            # the escalated search has its failing input
-            prog = flowgen.random_program(rng, weights)
-            one(env, res, drv, impl, prog, {'family': 'random'}, None, observables, random_monitor)
-            res.count('family:random')
+            flow_impl.prepare(prog)
+            if expect.get('entries'):
+                floworacle.fix_lines(prog, expect)
+            one(env, res, drv, impl, prog, meta, expect, observables)
+            res.count('family:' + meta.get('family', name))
+    rng = random.Random(env.seed * 7919 + 13 + shard * 104729)
+    for _ in range(n_random // shards + (1 if shard < n_random % shards else 0)):
+        if env.out_of_time():
+            break
+        if env.escalated and any(f['kind'] == 'property' for f in res.findings):
+            break            # the escalated search has its failing input
+        prog = flowgen.random_program(rng, weights)
+        one(env, res, drv, impl, prog, {'family': 'random'}, None, observables, random_monitor)
+        res.count('family:random')
+
+
+def _worker(shard):
+    fields, directed, n_random, weights, observables, random_monitor, shards = _JOB
+    env = common.Env(fields['pid'], fields['tier'], fields['seed'])
+    env.escalated, env.deadline = fields['escalated'], fields['deadline']
+    res = common.Result()
+    logging.disable(logging.CRITICAL)
+    impl = flow_impl.Impl()
+    try:
+        _stream(env, res, env.driver, impl, directed, n_random, weights, observables, random_monitor, shard, shards)
+    finally:
+        impl.close()
+        if env._driver:
+            env._driver.close()
+    return {'evaluations': res.evaluations, 'nontrivial': list(res.nontrivial), 'samples': res.samples,
+            'distribution': res.distribution, 'findings': res.findings[:40]}
+
+
+def run_streams(env, res, directed, n_random, weights=None, observables=None, random_monitor=None):
+    """directed: list of (name, generator(rng, n), n). Random programs from flowgen afterwards.
+    The thorough tier (and an escalated search) shards the streams over worker processes, each with its own
+    model driver and its own in-process pypyr."""
+    global _JOB
+    shards = 1 if env.quick else max(1, min(12, (os.cpu_count() or 2) - 2))
+    if os.environ.get('VERIF_FLOW_SHARDS'):
+        shards = int(os.environ['VERIF_FLOW_SHARDS'])
+    if shards > 1:
+        import multiprocessing as mp
+        _JOB = ({'pid': env.pid, 'tier': env.tier, 'seed': env.seed, 'escalated': env.escalated,
+                 'deadline': env.deadline}, directed, n_random, weights, observables, random_monitor, shards)
+        with mp.get_context('fork').Pool(shards) as pool:
+            parts = pool.map(_worker, range(shards), chunksize=1)
+        for part in parts:
+            res.evaluations += part['evaluations']
+            res.nontrivial.update(part['nontrivial'])
+            for k, v in part['distribution'].items():
+                res.count(k, v)
+            res.findings += part['findings']
+            for smp in part['samples']:
+                if len(res.samples) < 3:
+                    res.samples.append(smp)
+        res.extra['worker_processes'] = shards
+        return
+    logging.disable(logging.CRITICAL)
+    impl = flow_impl.Impl()
+    try:
+        _stream(env, res, env.driver, impl, directed, n_random, weights, observables, random_monitor)
     finally:
         impl.close()
         logging.disable(logging.NOTSET)
